@@ -404,7 +404,7 @@ def rule_chebyshev_bounds(ck, units, which=('cheb', 'sib')):
                   '' if ok else 'the statements guarded by `if (scale)` differ between the serial (%s) and the distributed (%s) spectral radius estimate' % (ser[0].where(), dis[0].where()))
 
 
-def rule_power_norm(ck, units, floor=4):
+def rule_power_norm(ck, units, floor=2):
     """power-norm-of-stored: in the power iteration of spectral_radius (serial and distributed) the squared norm that is accumulated to
     normalise the next iterate is that of the very value stored as the next iterate: between `norm += |<s, s>|` and `b[i] = s` (either
     order) s is not modified."""
@@ -444,6 +444,66 @@ def rule_power_norm(ck, units, floor=4):
                     ck.ob('power-norm-of-stored', key, f.where(n), not mods, '' if not mods else
                           '`%s` is modified at %s between the accumulation of its squared norm (%s) and the store `%s` (%s)' % (
                               f.decl(v)['n'], f.where(mods[0]), f.where(n), show(st), f.where(st)))
+
+
+def rule_power_unit(ck, units, floor=2):
+    """power-iterate-unit: the power iteration estimates the radius as |<A b, b>| with a UNIT vector b.  Every value stored into the
+    iterate that the quotient reads is either stored normalised (`b[i] = c * w[i]` with c = 1 / sqrt(accumulated norm)) or is normalised
+    by such a store on every path before the quotient reads the iterate."""
+    from effects import path_between
+    ck.rule('power-iterate-unit', 'spectral_radius power iteration: the iterate read by the Rayleigh quotient <A b, b> is a unit vector - every store into it is a normalising store '
+                                  '(c * w[i], c = 1 / sqrt(norm)) or is followed by one on every path to the quotient', floor)
+    seen = set()
+    for u in units.values():
+        for f0 in u.funcs:
+            if f0.q != 'amgcl::backend::spectral_radius' or f0.body is None or f0.cfg is None or (f0.file, f0.line) in seen:
+                continue
+            f = inline.expand(f0, inline.same_file_detail_helper())
+            # the quotient: acc += norm(inner_product(s, X[i]))  with s a local and X a local vector
+            quot = []
+            for n in f.nodes.values():
+                if n['k'] == 'bin' and n['op'] == '+=':
+                    for c in walk(n['y']):
+                        if c['k'] == 'call' and (c.get('f') or '').endswith('inner_product') and len(c.get('a', [])) == 2:
+                            a0, a1 = unwrap(c['a'][0]), unwrap(c['a'][1])
+                            for s_, x_ in ((a0, a1), (a1, a0)):
+                                if s_ is not None and x_ is not None and s_['k'] == 'ref' and x_['k'] == 'idx' and unwrap(x_['b'])['k'] == 'ref':
+                                    quot.append((n, unwrap(x_['b'])['d']))
+            if not quot:
+                continue
+            seen.add((f0.file, f0.line))
+            roots = set()
+            for n in f.nodes.values():
+                defs = []
+                if n['k'] == 'bin' and n['op'] == '=' and unwrap(n['x'])['k'] == 'ref':
+                    defs.append((unwrap(n['x'])['d'], n['y']))
+                if n['k'] == 'decl':
+                    defs += [(v['d'], v['init']) for v in n['v'] if v.get('init') is not None]
+                for d, e in defs:
+                    if any(c['k'] == 'call' and ((c.get('f') or '').split('::')[-1] == 'sqrt') for c in walk(e)) and any(c['k'] == 'bin' and c['op'] == '/' or (c['k'] == 'call' and (c.get('f') or '').endswith('inverse')) for c in walk(e)):
+                        roots.add(d)
+            for qn, X in quot:
+                stores = [n for n in f.nodes.values() if n['k'] == 'bin' and n['op'] == '=' and unwrap(n['x'])['k'] == 'idx' and unwrap(unwrap(n['x'])['b'])['k'] == 'ref'
+                          and unwrap(unwrap(n['x'])['b'])['d'] == X]
+
+                def normalising(st):
+                    y = unwrap(st['y'])
+                    if y is None or y['k'] != 'bin' or y['op'] != '*':
+                        return False
+                    a, b = unwrap(y['x']), unwrap(y['y'])
+                    return any(p is not None and p['k'] == 'ref' and p['d'] in roots and q is not None and q['k'] == 'idx' for p, q in ((a, b), (b, a)))
+                norm_st = [st for st in stores if normalising(st)]
+                # the loop that normalises element by element runs over the same range as the loop that stored the raw values: passing its
+                # header counts as passing the normalisation (a zero-trip path through it has stored nothing either)
+                gates = list(norm_st)
+                for st in norm_st:
+                    L = next((a for a in f.ancestors(st) if a['k'] in ('for', 'while', 'rfor')), None)
+                    if L is not None and L.get('c') is not None:
+                        gates += [x for x in walk(L['c'])]
+                bad = [st for st in stores if not normalising(st) and path_between(f, st, qn, avoid=gates)]
+                ck.ob('power-iterate-unit', 'spectral_radius|%s|%s' % (f.rel(), f.decl(X)['n']), f.where(qn), not bad, '' if not bad else
+                      '`%s` stored at %s reaches the quotient `%s` at %s without the iterate being scaled by 1 / sqrt(norm) in between: the estimate is |<A b, b>| of a vector that is not a unit vector' % (
+                          show(bad[0])[:40], f.where(bad[0]), show(qn)[:60], f.where(qn)))
 
 
 def rule_iluk_level(ck, units):
